@@ -22,15 +22,53 @@
 
 using namespace Givaro;
 
+// Derived class exposing the PROTECTED iterator-range helpers declared at the end of givpoly1dense.h, so that they
+// can be driven directly on sub-ranges of larger containers (a helper confusing the container with the range).
+template <class Field>
+struct Open : Poly1Dom<Field, Dense> {
+    typedef Poly1Dom<Field, Dense> Base;
+    Open(const Field& f, const Indeter& x) : Base(f, x) {}
+    using Base::mul; using Base::stdmul; using Base::karamul;
+    using Base::midmul; using Base::stdmidmul; using Base::karamidmul;
+    using Base::sqr; using Base::stdsqr; using Base::sqrrec;
+    using Base::subin;
+};
+
 template <class Field>
 struct Runner {
     typedef Poly1Dom<Field, Dense> PolDom;
     typedef typename PolDom::Element Poly;
     typedef typename Field::Element Elt;
     Field F;
-    PolDom D;
+    PolDom D0;          // the domain object every plain variant uses
+    PolDom Dc;          // copy-constructed from D0            (variant suffix "@c")
+    PolDom Da;          // default-constructed, then assigned  (variant suffix "@a")
+    Open<Field> O;      // access to the protected range helpers (variants "r.*")
     Integer p;
-    Runner(const Field& f, const Integer& pp) : F(f), D(f, Indeter("X")), p(pp) {}
+    Runner(const Field& f, const Integer& pp) : F(f), D0(f, Indeter("X")), Dc(D0), Da(), O(f, Indeter("X")), p(pp) { Da = D0; }
+
+    // junk entry number i of a padded container: non-zero, alternating one / -one (equal in characteristic 2)
+    Elt junk(size_t i) const { return (i & 1) ? F.mOne : F.one; }
+    Poly padded(const Poly& P, size_t a, size_t b) const {
+        Poly X; X.reserve(a + P.size() + b);
+        for (size_t i = 0; i < a; ++i) X.push_back(junk(i));
+        for (size_t i = 0; i < P.size(); ++i) X.push_back(P[i]);
+        for (size_t i = 0; i < b; ++i) X.push_back(junk(a + i));
+        return X;
+    }
+    bool same(const Poly& X, const Poly& Y) const {
+        if (X.size() != Y.size()) return false;
+        for (size_t i = 0; i < X.size(); ++i) if (!F.areEqual(X[i], Y[i])) return false;
+        return true;
+    }
+    // result container junk^a ++ junk^n ++ junk^b ; after the call: the n inner entries, or PADBROKEN
+    std::string inner(const Poly& RR, const Poly& RR0, size_t a, size_t n) const {
+        if (RR.size() != RR0.size()) return "PADBROKEN";
+        for (size_t i = 0; i < RR.size(); ++i)
+            if ((i < a || i >= a + n) && !F.areEqual(RR[i], RR0[i])) return "PADBROKEN";
+        Poly X(RR.begin() + (ssize_t)a, RR.begin() + (ssize_t)(a + n));
+        return sp(X);
+    }
 
     Elt elt(const std::string& t) const { Elt e; F.init(e); Integer v(t.c_str()); F.init(e, v); return e; }
     Poly parse_poly(const std::string& s) const {
@@ -50,8 +88,14 @@ struct Runner {
         for (size_t i = 0; i < P.size(); ++i) { if (i) o << ","; o << se(P[i]); }
         return o.str();
     }
-    std::string run(const std::string& v, const std::vector<std::string>& a) {
+    std::string run(const std::string& vfull, const std::vector<std::string>& a) {
         std::ostringstream o;
+        // which domain object performs the call: "@c" = copy-constructed, "@a" = default-constructed then assigned
+        std::string v = vfull;
+        const PolDom* dsel = &D0;
+        if (v.size() > 2 && v.compare(v.size() - 2, 2, "@c") == 0) { dsel = &Dc; v.resize(v.size() - 2); }
+        else if (v.size() > 2 && v.compare(v.size() - 2, 2, "@a") == 0) { dsel = &Da; v.resize(v.size() - 2); }
+        const PolDom& D = *dsel;
         // destinations start from a non-empty junk value so that every resize branch is exercised
         Poly R, R2, R3; R.assign(3, F.one); R2.assign(5, F.one); R3.assign(2, F.one);
         auto P = [&](size_t i) { return parse_poly(a.at(i)); };
@@ -92,7 +136,7 @@ struct Runner {
         else if (v == "neg") { Poly A = P(0); o << sp(D.neg(R, A)); }
         else if (v == "negin") { Poly A = P(0); o << sp(D.negin(A)); }
         // the domain's own constant `zero` of a fresh domain object as operand (it was the vector [0] until ffae607, now the empty vector); argument 0 is ignored
-        else if (v == "add.rps.Dzero") { PolDom D2(F, Indeter("X")); o << sp(D2.add(R, D2.zero, S(1))); }
+        else if (v == "add.rps.Dzero") { PolDom D2(F, Indeter("X")); const PolDom& Dz = (dsel == &D0) ? D2 : D; o << sp(Dz.add(R, Dz.zero, S(1))); }
         else if (v == "add.rsp.Dzero") { PolDom D2(F, Indeter("X")); o << sp(D2.add(R, S(1), D2.zero)); }
         else if (v == "sub.rps.Dzero") { PolDom D2(F, Indeter("X")); o << sp(D2.sub(R, D2.zero, S(1))); }
         // ---- products
@@ -180,6 +224,214 @@ struct Runner {
             if (v == "crt.toring") { C.RnsToRing(R, Y); }
             else { C.RnsToRing(R2, Y); Poly1CRT<Field> C2(C); C2.RnsToRing(R, Y); }   // copy carries the cached reciprocals
             o << sp(R);
+        }
+        // ================= call forms added in phase 3 =================
+        // ---- constructors / init / assign overloads used to obtain polynomials
+        else if (v == "init.empty") { o << sp(D.init(R)); }
+        else if (v == "init.cst") { o << sp(D.init(R, Integer(a.at(0).c_str()))); }
+        else if (v == "init.deg") { o << sp(D.init(R, Degree(N(0)))); }
+        else if (v == "init.list") {
+            Poly A = P(0); std::vector<Integer> c; for (size_t i = 0; i < A.size(); ++i) { Integer t; F.convert(t, A[i]); c.push_back(t); }
+            switch (c.size()) {
+                case 0: { std::initializer_list<Integer> l = {}; D.init(R, l); break; }
+                case 1: D.init(R, std::initializer_list<Integer>{c[0]}); break;
+                case 2: D.init(R, std::initializer_list<Integer>{c[0], c[1]}); break;
+                case 3: D.init(R, std::initializer_list<Integer>{c[0], c[1], c[2]}); break;
+                case 4: D.init(R, std::initializer_list<Integer>{c[0], c[1], c[2], c[3]}); break;
+                default: D.init(R, std::initializer_list<Integer>{c[0], c[1], c[2], c[3], c[4]}); break;
+            }
+            o << sp(R);
+        }
+        else if (v == "assign.cst") { o << sp(D.assign(R, S(1))); }
+        else if (v == "assign.toval") { Poly A = P(0); o << se(D.assign(e, A)); }
+        else if (v == "convert.val") { Poly A = P(0); Integer t; D.convert(t, A); t %= p; if (t < 0) t += p; o << t; }
+        else if (v == "assign.self") { Poly A = P(0); o << sp(D.assign(A, A)); }
+        else if (v == "isOne") { Poly A = P(0); o << (D.isOne(A) ? 1 : 0); }
+        else if (v == "isMOne") { Poly A = P(0); o << (D.isMOne(A) ? 1 : 0); }
+        else if (v == "isUnit") { Poly A = P(0); o << (D.isUnit(A) ? 1 : 0); }
+        else if (v == "diff.alias") { Poly A = P(0); o << sp(D.diff(A, A)); }
+        else if (v == "reverse.alias") { Poly A = P(0); o << sp(D.reverse(A, A)); }
+        // ---- add / sub / neg: destination is an operand, both operands the same object
+        else if (v == "add.alias2") { Poly A = P(0), B = P(1); o << sp(D.add(B, A, B)); }
+        else if (v == "add.self") { Poly A = P(0); o << sp(D.add(R, A, A)); }
+        else if (v == "addin.self") { Poly A = P(0); o << sp(D.addin(A, A)); }
+        else if (v == "add.rps.alias") { Poly A = P(0); o << sp(D.add(A, A, S(1))); }
+        else if (v == "add.rsp.alias") { Poly A = P(0); o << sp(D.add(A, S(1), A)); }
+        else if (v == "sub.alias1") { Poly A = P(0), B = P(1); o << sp(D.sub(A, A, B)); }
+        else if (v == "sub.alias2") { Poly A = P(0), B = P(1); o << sp(D.sub(B, A, B)); }
+        else if (v == "sub.self") { Poly A = P(0); o << sp(D.sub(R, A, A)); }
+        else if (v == "subin.self") { Poly A = P(0); o << sp(D.subin(A, A)); }
+        else if (v == "sub.rps.alias") { Poly A = P(0); o << sp(D.sub(A, A, S(1))); }
+        else if (v == "sub.rsp.alias") { Poly A = P(1); o << sp(D.sub(A, S(0), A)); }
+        else if (v == "neg.alias") { Poly A = P(0); o << sp(D.neg(A, A)); }
+        // ---- products
+        else if (v == "mul.alias1") { Poly A = P(0), B = P(1); o << sp(D.mul(A, A, B)); }
+        else if (v == "mul.alias2") { Poly A = P(0), B = P(1); o << sp(D.mul(B, A, B)); }
+        else if (v == "mul.self") { Poly A = P(0); o << sp(D.mul(R, A, A)); }
+        else if (v == "mul.aliasself") { Poly A = P(0); o << sp(D.mul(A, A, A)); }
+        else if (v == "mulin.self") { Poly A = P(0); o << sp(D.mulin(A, A)); }
+        else if (v == "stdmul.alias1") { Poly A = P(0), B = P(1); o << sp(D.stdmul(A, A, B)); }
+        else if (v == "stdmul.alias2") { Poly A = P(0), B = P(1); o << sp(D.stdmul(B, A, B)); }
+        else if (v == "karamul.alias1") { Poly A = P(0), B = P(1); o << sp(D.karamul(A, A, B)); }
+        else if (v == "karamul.alias2") { Poly A = P(0), B = P(1); o << sp(D.karamul(B, A, B)); }
+        else if (v == "karamul.self") { Poly A = P(0); o << sp(D.karamul(R, A, A)); }
+        else if (v == "mul.rps.alias") { Poly A = P(0); o << sp(D.mul(A, A, S(1))); }
+        else if (v == "mul.rsp.alias") { Poly A = P(0); o << sp(D.mul(A, S(1), A)); }
+        else if (v == "sqr.alias") { Poly A = P(0); o << sp(D.sqr(A, A)); }
+        else if (v == "mul.trunc.alias1") { Poly A = P(0), B = P(1); o << sp(D.mul(A, A, B, Degree(N(2)), Degree(N(3)))); }
+        else if (v == "mul.trunc.alias2") { Poly A = P(0), B = P(1); o << sp(D.mul(B, A, B, Degree(N(2)), Degree(N(3)))); }
+        else if (v == "midmul.alias1") { Poly A = P(0), B = P(1); o << sp(D.midmul(A, A, B)); }
+        else if (v == "midmul.alias2") { Poly A = P(0), B = P(1); o << sp(D.midmul(B, A, B)); }
+        else if (v == "stdmidmul.alias1") { Poly A = P(0), B = P(1); o << sp(D.stdmidmul(A, A, B)); }
+        else if (v == "stdmidmul.alias2") { Poly A = P(0), B = P(1); o << sp(D.stdmidmul(B, A, B)); }
+        else if (v == "karamidmul.alias1") { Poly A = P(0), B = P(1); o << sp(D.karamidmul(A, A, B)); }
+        else if (v == "karamidmul.alias2") { Poly A = P(0), B = P(1); o << sp(D.karamidmul(B, A, B)); }
+        // ---- division
+        else if (v == "inv") { Poly A = P(1); o << sp(D.inv(R, A)); }
+        else if (v == "invin") { Poly A = P(1); o << sp(D.invin(A)); }
+        else if (v == "div.alias1") { Poly A = P(0), B = P(1); o << sp(D.div(A, A, B)); }
+        else if (v == "div.alias2") { Poly A = P(0), B = P(1); o << sp(D.div(B, A, B)); }
+        else if (v == "div.rps.alias") { Poly A = P(0); o << sp(D.div(A, A, S(1))); }
+        else if (v == "mod.alias1") { Poly A = P(0), B = P(1); o << sp(D.mod(A, A, B)); }
+        else if (v == "mod.alias2") { Poly A = P(0), B = P(1); o << sp(D.mod(B, A, B)); }
+        else if (v == "divmod.aliasQA") { Poly A = P(0), B = P(1); D.divmod(A, R2, A, B); o << sp(A) << " " << sp(R2); }
+        else if (v == "divmod.aliasQB") { Poly A = P(0), B = P(1); D.divmod(B, R2, A, B); o << sp(B) << " " << sp(R2); }
+        else if (v == "divmod.aliasRA") { Poly A = P(0), B = P(1); D.divmod(R, A, A, B); o << sp(R) << " " << sp(A); }
+        else if (v == "divmod.aliasRB") { Poly A = P(0), B = P(1); D.divmod(R, B, A, B); o << sp(R) << " " << sp(B); }
+        else if (v == "divmodin.aliasQB") { Poly A = P(0), B = P(1); D.divmodin(B, A, B); o << sp(B) << " " << sp(A); }
+        else if (v == "pdivmod.aliasQA") { Poly A = P(0), B = P(1); D.pdivmod(A, R2, m, A, B); o << sp(A) << " " << sp(R2) << " " << se(m); }
+        else if (v == "pdivmod.aliasQB") { Poly A = P(0), B = P(1); D.pdivmod(B, R2, m, A, B); o << sp(B) << " " << sp(R2) << " " << se(m); }
+        else if (v == "pdivmod.aliasRA") { Poly A = P(0), B = P(1); D.pdivmod(R, A, m, A, B); o << sp(R) << " " << sp(A) << " " << se(m); }
+        else if (v == "pdivmod.aliasRB") { Poly A = P(0), B = P(1); D.pdivmod(R, B, m, A, B); o << sp(R) << " " << sp(B) << " " << se(m); }
+        else if (v == "pmod.aliasRA") { Poly A = P(0), B = P(1); D.pmod(A, m, A, B); o << sp(A) << " " << se(m); }
+        else if (v == "pmod.aliasRB") { Poly A = P(0), B = P(1); D.pmod(B, m, A, B); o << sp(B) << " " << se(m); }
+        else if (v == "invmodpowx.alias") { Poly A = P(0); o << sp(D.invmodpowx(A, A, Degree(N(1)))); }
+        else if (v == "modpowx.alias") { Poly A = P(0); o << sp(D.modpowx(A, A, Degree(N(1)))); }
+        else if (v == "newtoninviter") { Poly G = P(0), A = P(1), S_, Am; S_.assign(2, F.one); Am.assign(7, F.one); o << sp(D.newtoninviter(G, S_, Am, A, Degree(N(2)))); }
+        // ---- gcd family
+        else if (v == "gcd.2.alias1") { Poly A = P(0), B = P(1); o << sp(D.gcd(A, A, B)); }
+        else if (v == "gcd.2.alias2") { Poly A = P(0), B = P(1); o << sp(D.gcd(B, A, B)); }
+        else if (v == "gcd.5.aliasFA") { Poly A = P(0), B = P(1); D.gcd(A, R2, R3, A, B); o << sp(A) << " " << sp(R2) << " " << sp(R3); }
+        else if (v == "gcd.5.aliasFB") { Poly A = P(0), B = P(1); D.gcd(B, R2, R3, A, B); o << sp(B) << " " << sp(R2) << " " << sp(R3); }
+        else if (v == "gcd.5.aliasSA") { Poly A = P(0), B = P(1); D.gcd(R, A, R3, A, B); o << sp(R) << " " << sp(A) << " " << sp(R3); }
+        else if (v == "gcd.5.aliasSB") { Poly A = P(0), B = P(1); D.gcd(R, B, R3, A, B); o << sp(R) << " " << sp(B) << " " << sp(R3); }
+        else if (v == "gcd.5.aliasTA") { Poly A = P(0), B = P(1); D.gcd(R, R2, A, A, B); o << sp(R) << " " << sp(R2) << " " << sp(A); }
+        else if (v == "gcd.5.aliasTB") { Poly A = P(0), B = P(1); D.gcd(R, R2, B, A, B); o << sp(R) << " " << sp(R2) << " " << sp(B); }
+        else if (v == "lcm.aliasA") { Poly A = P(0), B = P(1); o << sp(D.lcm(A, A, B)); }
+        else if (v == "lcm.aliasB") { Poly A = P(0), B = P(1); o << sp(D.lcm(B, A, B)); }
+        else if (v == "invmod.alias1") { Poly A = P(0), B = P(1); o << sp(D.invmod(A, A, B)); }
+        else if (v == "invmod.alias2") { Poly A = P(0), B = P(1); o << sp(D.invmod(B, A, B)); }
+        else if (v == "invmodunit.alias1") { Poly A = P(0), B = P(1); o << sp(D.invmodunit(A, A, B)); }
+        else if (v == "invmodunit.alias2") { Poly A = P(0), B = P(1); o << sp(D.invmodunit(B, A, B)); }
+        // ---- powers
+        else if (v == "pow.alias") { Poly A = P(0); o << sp(D.pow(A, A, (uint64_t)strtoull(a.at(1).c_str(), 0, 10))); }
+        else if (v == "powmod.i32") { Poly A = P(0), U = P(2); o << sp(D.powmod(R, A, (int)strtol(a.at(1).c_str(), 0, 10), U)); }
+        else if (v == "powmod.aliasWU") { Poly A = P(0), U = P(2); o << sp(D.powmod(U, A, Integer(a.at(1).c_str()), U)); }
+        else if (v == "powmod.aliasWP") { Poly A = P(0), U = P(2); o << sp(D.powmod(A, A, Integer(a.at(1).c_str()), U)); }
+        // ---- fused forms: destination is an operand
+        else if (v == "axpy.aliasA") { Poly A = P(0), X = P(1), Y = P(2); o << sp(D.axpy(A, A, X, Y)); }
+        else if (v == "axpy.aliasX") { Poly A = P(0), X = P(1), Y = P(2); o << sp(D.axpy(X, A, X, Y)); }
+        else if (v == "axpy.aliasY") { Poly A = P(0), X = P(1), Y = P(2); o << sp(D.axpy(Y, A, X, Y)); }
+        else if (v == "axpy.s.aliasX") { Poly X = P(1), Y = P(2); o << sp(D.axpy(X, S(0), X, Y)); }
+        else if (v == "axpy.s.aliasY") { Poly X = P(1), Y = P(2); o << sp(D.axpy(Y, S(0), X, Y)); }
+        else if (v == "axpyin.aliasA") { Poly Rr = P(0), X = P(2); o << sp(D.axpyin(Rr, Rr, X)); }
+        else if (v == "maxpy.aliasA") { Poly A = P(0), B = P(1), C = P(2); o << sp(D.maxpy(A, A, B, C)); }
+        else if (v == "maxpy.aliasC") { Poly A = P(0), B = P(1), C = P(2); o << sp(D.maxpy(C, A, B, C)); }
+#ifdef C08_HAVE_MAXPY_S
+        else if (v == "maxpy.s.aliasB") { Poly B = P(1), C = P(2); o << sp(D.maxpy(B, S(0), B, C)); }
+        else if (v == "maxpy.s.aliasC") { Poly B = P(1), C = P(2); o << sp(D.maxpy(C, S(0), B, C)); }
+#endif
+        else if (v == "maxpyin.aliasA") { Poly Rr = P(0), B = P(2); o << sp(D.maxpyin(Rr, Rr, B)); }
+        else if (v == "axmy.aliasA") { Poly A = P(0), X = P(1), Y = P(2); o << sp(D.axmy(A, A, X, Y)); }
+        else if (v == "axmy.aliasY") { Poly A = P(0), X = P(1), Y = P(2); o << sp(D.axmy(Y, A, X, Y)); }
+        else if (v == "axmy.s.aliasX") { Poly X = P(1), Y = P(2); o << sp(D.axmy(X, S(0), X, Y)); }
+        else if (v == "axmy.s.aliasY") { Poly X = P(1), Y = P(2); o << sp(D.axmy(Y, S(0), X, Y)); }
+        else if (v == "axmyin.aliasA") { Poly Rr = P(0), X = P(2); o << sp(D.axmyin(Rr, Rr, X)); }
+        // ---- interpolation: copies of the interpolation object, the REDUCE = false instantiation
+        else if (v == "interp.copy" || v == "interp.assign" || v == "interp.noreduce") {
+            Poly X = P(0), Y = P(1);
+            if (v == "interp.noreduce") {
+                Interpolation<Field, false> I(F, Indeter("X"));
+                for (size_t i = 0; i < X.size(); ++i) I(X[i], Y[i]);
+                o << sp(I.interpolator());
+            } else {
+                Interpolation<Field> I(F, Indeter("X"));
+                size_t h = X.size() / 2;
+                for (size_t i = 0; i < h; ++i) I(X[i], Y[i]);
+                if (v == "interp.copy") {
+                    Interpolation<Field> I2(I);                       // implicit copy constructor: state is carried over
+                    for (size_t i = h; i < X.size(); ++i) I2(X[i], Y[i]);
+                    o << sp(I2.interpolator());
+                } else {
+                    Interpolation<Field> I2(F, Indeter("Y"));
+                    if (X.size() > 1) I2(X[X.size() - 1], Y[0]);      // some other state, overwritten by the assignment
+                    I2 = I;
+                    for (size_t i = h; i < X.size(); ++i) I2(X[i], Y[i]);
+                    o << sp(I2.interpolator());
+                }
+            }
+        }
+        // ---- polynomial CRT: copies before / after the reciprocals are cached, repeated use, accessors
+        else if (v == "crt.toring.copy0" || v == "crt.toring.twice" || v == "crt.torns.copy") {
+            Poly X = P(0), Y = P(1);
+            Poly1CRT<Field> C(F, X, Indeter("X"));
+            if (v == "crt.toring.copy0") { Poly1CRT<Field> C2(C); C2.RnsToRing(R, Y); o << sp(R); }
+            else if (v == "crt.toring.twice") { Poly Y2(Y.rbegin(), Y.rend()); C.RnsToRing(R2, Y2); C.RnsToRing(R, Y); o << sp(R); }
+            else { Poly1CRT<Field> C2(C); typename Poly1CRT<Field>::array_T rns; rns.assign(1, F.one); C2.RingToRns(rns, Y); o << sp(rns); }
+        }
+        else if (v == "crt.recip") {
+            Poly X = P(0); size_t k = (size_t)N(1);
+            const Poly1CRT<Field> C(F, X, Indeter("X"));
+            o << sp(C.reciprocal(k)) << " " << C.size() << " " << se(C.ith(k)) << " " << sp(C.Primes()) << " " << C.Reciprocals().size();
+        }
+        // ---- the protected range helpers, driven on sub-ranges of padded containers (struct Open)
+        else if (v == "r.mul" || v == "r.stdmul" || v == "r.karamul") {
+            size_t n = (size_t)N(0); Poly Pp = P(1), Qq = P(2); size_t pa = (size_t)N(3), pb = (size_t)N(4);
+            Poly PP = padded(Pp, pa, pb), QQ = padded(Qq, pa, pb), RR = padded(Poly(n, F.one), pa, pb);
+            const Poly PP0(PP), QQ0(QQ), RR0(RR);
+            typename Poly::iterator rb = RR.begin() + (ssize_t)pa, re = rb + (ssize_t)n;
+            typename Poly::const_iterator ib = PP.begin() + (ssize_t)pa, ie = ib + (ssize_t)Pp.size();
+            typename Poly::const_iterator jb = QQ.begin() + (ssize_t)pa, je = jb + (ssize_t)Qq.size();
+            if (v == "r.mul") O.mul(RR, rb, re, PP, ib, ie, QQ, jb, je);
+            else if (v == "r.stdmul") O.stdmul(RR, rb, re, PP, ib, ie, QQ, jb, je);
+            else O.karamul(RR, rb, re, PP, ib, ie, QQ, jb, je);
+            if (!same(PP, PP0) || !same(QQ, QQ0)) o << "SRCBROKEN"; else o << inner(RR, RR0, pa, n);
+        }
+        else if (v == "r.sqr" || v == "r.stdsqr" || v == "r.sqrrec") {
+            Poly Pp = P(0); size_t pa = (size_t)N(1), pb = (size_t)N(2); size_t n = 2 * Pp.size() - 1;
+            Poly PP = padded(Pp, pa, pb), RR = padded(Poly(n, F.one), pa, pb);
+            const Poly PP0(PP), RR0(RR);
+            typename Poly::iterator rb = RR.begin() + (ssize_t)pa, re = rb + (ssize_t)n;
+            typename Poly::const_iterator ib = PP.begin() + (ssize_t)pa, ie = ib + (ssize_t)Pp.size();
+            Elt two; F.init(two); F.add(two, F.one, F.one);
+            if (v == "r.sqr") O.sqr(RR, rb, re, PP, ib, ie);
+            else if (v == "r.stdsqr") O.stdsqr(RR, rb, re, PP, ib, ie, two);
+            else O.sqrrec(RR, rb, re, PP, ib, ie, two);
+            if (!same(PP, PP0)) o << "SRCBROKEN"; else o << inner(RR, RR0, pa, n);
+        }
+        else if (v == "r.midmul" || v == "r.stdmidmul" || v == "r.karamidmul") {
+            Poly Pp = P(0), Qq = P(1); size_t pa = (size_t)N(2), pb = (size_t)N(3); size_t n = Pp.size() - Qq.size() + 1;
+            Poly PP = padded(Pp, pa, pb), QQ = padded(Qq, pa, pb), RR = padded(Poly(n, F.one), pa, pb);
+            const Poly PP0(PP), QQ0(QQ), RR0(RR);
+            typename Poly::iterator rb = RR.begin() + (ssize_t)pa, re = rb + (ssize_t)n;
+            typename Poly::const_iterator ib = PP.begin() + (ssize_t)pa, ie = ib + (ssize_t)Pp.size();
+            typename Poly::const_iterator jb = QQ.begin() + (ssize_t)pa, je = jb + (ssize_t)Qq.size();
+            if (v == "r.midmul") O.midmul(RR, rb, re, PP, ib, ie, QQ, jb, je);
+            else if (v == "r.stdmidmul") O.stdmidmul(RR, rb, re, PP, ib, ie, QQ, jb, je);
+            else O.karamidmul(RR, rb, re, PP, ib, ie, QQ, jb, je);
+            if (!same(PP, PP0) || !same(QQ, QQ0)) o << "SRCBROKEN"; else o << inner(RR, RR0, pa, n);
+        }
+        else if (v == "r.subin3" || v == "r.subin2" || v == "r.subin1") {
+            Poly Rr = P(0), Pp = P(1);
+            size_t off = 0, k = 2;
+            if (v == "r.subin1") { off = (size_t)N(2); k = 3; }
+            size_t pa = (size_t)N(k), pb = (size_t)N(k + 1);
+            Poly PP = padded(Pp, pa, pb); const Poly PP0(PP);
+            typename Poly::const_iterator ib = PP.begin() + (ssize_t)pa, ie = ib + (ssize_t)Pp.size();
+            if (v == "r.subin3") O.subin(Rr, Rr.begin(), Rr.end(), PP, ib, ie);
+            else if (v == "r.subin2") O.subin(Rr, PP, ib, ie);
+            else O.subin(Rr, Rr.begin() + (ssize_t)off, PP, ib, ie);
+            if (!same(PP, PP0)) o << "SRCBROKEN"; else o << sp(Rr);
         }
         else o << "UNKNOWN-VARIANT";
         return o.str();
